@@ -1,7 +1,7 @@
 (* C07 property theorems: rendering and re-parsing is the identity, in every
    output mode.  Proofs are in Proofs/Lex. *)
 From DD Require Import Model.Lexer Model.Writer Spec.StdReader.
-From DD Require Import Proofs.Lex.Writers.
+From DD Require Import Proofs.Lex.Writers Proofs.Lex.Range.
 
 Theorem w_check_eq_default : forall es, w_check es = w_default es.
 Proof. exact w_check_eq_default_proof. Qed.
@@ -38,4 +38,36 @@ Example parse_w_ex :
              L [cSEMI; cLF]; T [L [99%N]; L [100%N]]] in
   forallb wf es = true /\
   parse (w_check es) = es /\ parse (w_pretty es) = es /\ parse (w_wrap es) = es.
+Proof. vm_compute. repeat split; reflexivity. Qed.
+
+(* ---- range of the parser ---- *)
+
+Theorem parser_range : forall t, wf_last (parse t) = true.
+Proof. exact parser_range_proof. Qed.
+Print Assumptions parser_range.
+
+Theorem parsed_roundtrip_check : forall t, parse (w_check (parse t)) = norm (parse t).
+Proof. exact parsed_roundtrip_check_proof. Qed.
+Print Assumptions parsed_roundtrip_check.
+
+Theorem parsed_roundtrip_default : forall t, parse (w_default (parse t)) = norm (parse t).
+Proof. exact parsed_roundtrip_default_proof. Qed.
+Print Assumptions parsed_roundtrip_default.
+
+Theorem parsed_roundtrip_pretty : forall t, parse (w_pretty (parse t)) = norm (parse t).
+Proof. exact parsed_roundtrip_pretty_proof. Qed.
+Print Assumptions parsed_roundtrip_pretty.
+
+Theorem parsed_roundtrip_wrap : forall t, parse (w_wrap (parse t)) = norm (parse t).
+Proof. exact parsed_roundtrip_wrap_proof. Qed.
+Print Assumptions parsed_roundtrip_wrap.
+
+(* a text ending inside a comment: the last leaf is the unterminated comment,
+   [norm] appends the LF; an unbalanced text still parses into the range *)
+Example parsed_roundtrip_ex :
+  let t := [cLP; 97%N; cSP; cDQ; cRP; cDQ; cRP; cRP; cSEMI; 120%N] in
+  parse t = [T [L [97%N]; L [cDQ; cRP; cDQ]]; L [cSEMI; 120%N]] /\
+  forallb wf (parse t) = false /\ wf_last (parse t) = true /\
+  norm (parse t) = [T [L [97%N]; L [cDQ; cRP; cDQ]]; L [cSEMI; 120%N; cLF]] /\
+  parse (w_pretty (parse t)) = norm (parse t).
 Proof. vm_compute. repeat split; reflexivity. Qed.
